@@ -7,6 +7,7 @@ import (
 	"fmt"
 	"os"
 	"sort"
+	"strings"
 	"time"
 )
 
@@ -114,6 +115,9 @@ func (fr *fmtRun) report(prop string, verdicts map[int]fmtVerdict) {
 			if !ok {
 				sigs, notes[k] = fmtAttribute(&it.rec, prop, mode, law, it.cs.Exh)
 				attr[k] = sigs
+				if strings.HasPrefix(notes[k], "attribution by feature presence") {
+					c.CovAdd("attributed_by_presence_only", 1)
+				}
 			}
 			for _, sig := range sigs {
 				clusters[sig+" "+law+mode+" "+it.cs.Fam] = append(clusters[sig+" "+law+mode+" "+it.cs.Fam], it.cs.Src)
